@@ -496,6 +496,8 @@ def _replace_subscript_looping_complex_cases(source: str) -> str:
             continue  # the index is also used outside target[index]
 
         new_index_name = f"{template_match.target.id}_{template_match.index.id}"
+        if any(core.walk(root, ast.Name(id=new_index_name))):
+            continue  # the new loop variable would hide a variable of that name
 
         yield comprehension.target, ast.Name(id=new_index_name)
         if core.match_template(comprehension.iter.args[0], target_length_template):
